@@ -764,12 +764,15 @@ auto vyukov_hash_map<Key, Value, Policies...>::find(const key_type& key) -> iter
     }
   }
 
+  auto prev = &bucket.head;
   auto extension = bucket.head.load(std::memory_order_relaxed);
   while (extension) {
     if (traits::template compare_key<false>(extension->key, extension->value, key, h, acc)) {
       result.extension = extension;
+      result.prev = prev; // erase(iterator) unlinks the extension item through prev
       return result;
     }
+    prev = &extension->next;
     extension = extension->next.load(std::memory_order_relaxed);
   }
 
